@@ -9,6 +9,7 @@ set -euo pipefail
 cd "$(dirname "$0")"
 VERIF=$(pwd)
 REPO=${VERIF_REPO:-/repo}
+BUILD=${VERIF_BUILD:-$VERIF/build}
 FLAVOURS=("$@")
 if [ ${#FLAVOURS[@]} -eq 0 ]; then FLAVOURS=(rel asan tsan); fi
 
@@ -22,7 +23,7 @@ flags_for() {
 }
 
 for fl in "${FLAVOURS[@]}"; do
-  B="$VERIF/build/$fl/celeritas"
+  B="$BUILD/$fl/celeritas"
   mkdir -p "$B"
   EXTRA=$(flags_for "$fl")
   if [ ! -f "$B/build.ninja" ]; then
@@ -42,7 +43,7 @@ for fl in "${FLAVOURS[@]}"; do
       > "$B/configure.log" 2>&1 || { cat "$B/configure.log"; exit 1; }
   fi
   echo "[setup] building flavour $fl"
-  flock "$VERIF/build/$fl/.lock" ninja -C "$B" celeritas > "$B/build.log" 2>&1 || { tail -50 "$B/build.log"; exit 1; }
+  flock "$BUILD/$fl/.lock" ninja -C "$B" celeritas > "$B/build.log" 2>&1 || { tail -50 "$B/build.log"; exit 1; }
   ls "$B/lib/"*.so > /dev/null
 done
 echo "[setup] done"
